@@ -60,6 +60,30 @@ theorem clsgrp_fb_size_ok : ∀ b, b ≤ 512 → ∀ d : Bool,
 theorem siqs_fb_size_ok : ∀ sz, sz ≤ 512 → ∀ d m8 : Bool,
     Holds (siqs.fb_size sz d m8) fun v => 0 < v := by decide +kernel
 
+/-- Note (not a consumer precondition: `prepare_factor_base` keeps 24-bit primes only and
+`FBase::new` truncates to what was prepared): unlike `qs_fb_size`/`mpqs_fb_size`, the SIQS request
+is not capped at the "maximal factor base size" 500000.  Full statement, refuted: -/
+theorem siqs_fb_size_le_cap_fails :
+    ¬ (∀ sz, sz ≤ 512 → ∀ d m8 : Bool, Holds (siqs.fb_size sz d m8) fun v => v ≤ 500000) := by
+  intro h
+  have := h 393 (by decide) true false
+  revert this
+  decide +kernel
+
+/-- counter-witnesses: the first sizes above the cap are 361 bits without and 391 bits with double
+large primes (524288); 393 bits with double large primes request 557056 primes, more than exist
+(about 539000 primes `p < 2^24` with `(n/p) ≠ -1`; observed on the real code:
+`FBase::new(n, 557056).len() = 539216` for a 393-bit `n`); 512 bits request 7340032. -/
+theorem siqs_fb_size_cap_witness :
+    siqs.fb_size 361 false false = some 524288 ∧ siqs.fb_size 391 true false = some 524288 ∧
+    siqs.fb_size 393 true false = some 557056 ∧ siqs.fb_size 512 true false = some 7340032 := by
+  decide +kernel
+
+/-- what holds: the cap is respected up to 360 bits (any flags) and up to 390 bits with double
+large primes. -/
+theorem siqs_fb_size_le_cap_partial : ∀ sz, sz ≤ 390 → ∀ d m8 : Bool, (sz ≤ 360 ∨ d = true) →
+    Holds (siqs.fb_size sz d m8) fun v => v ≤ 500000 := by decide +kernel
+
 /-- `nfactors`: at least one factor (`nfacs - 1` does not underflow) and `1 << (nfacs - 1)` is in
 range even for the `i32` the expression defaults to. -/
 theorem siqs_nfactors_ok : ∀ sz, sz ≤ 512 →
@@ -336,8 +360,9 @@ theorem mzp_product_ok : ∀ w, w ≤ NTT_PRIMES_LEN →
 theorem convolve_dispatch_total : ∀ bits, bits ≤ CONVOLVE_MAX_BITS → ∀ k, k ≤ 19 →
     Holds (arith_fft.convolve_dispatch bits (2 ^ k)) fun _ => True := Dec.convolve_total
 
-/-- every arm's packing hypotheses hold wherever the arm is selected, for sizes `2 ≤ 2^k ≤ 2^19`. -/
-theorem convolve_dispatch_packing_ok : ∀ bits, bits ≤ CONVOLVE_MAX_BITS → ∀ k, k ≤ 19 → 1 ≤ k →
+/-- every arm's packing hypotheses hold wherever the arm is selected, for sizes `2 ≤ 2^k ≤ 2^19`.
+Partial: `size = 1` is excluded, see `convolve_dispatch_packing_fails_size_one`. -/
+theorem convolve_dispatch_packing_partial : ∀ bits, bits ≤ CONVOLVE_MAX_BITS → ∀ k, k ≤ 19 → 1 ≤ k →
     Holds (arith_fft.convolve_dispatch bits (2 ^ k)) (DispatchOk bits k) := Dec.convolve_packing
 
 /-- Degenerate size: for `size = 1` and coefficients of at most 150 bits the first arm packs two
@@ -346,6 +371,16 @@ coefficients per FFT word, so the FFT length `size >> 1` is `0` and `mulfft` com
 a convolution modulo `X - 1` is not a meaningful request.) -/
 theorem convolve_dispatch_size_one : ∀ bits, bits ≤ 150 →
     Holds (arith_fft.convolve_dispatch bits 1) fun r => 2 ^ 0 / 2 ^ r.2.1 = 0 := by decide +kernel
+
+/-- the full statement (all `2^k ≤ 2^19`) is false; witness `bits = 100`, `size = 1`.  Observed
+on the real code: `convolve_modn(zn, 1, ..)` panics for a 100-bit modulus in both profiles. -/
+theorem convolve_dispatch_packing_fails_size_one :
+    ¬ (∀ bits, bits ≤ CONVOLVE_MAX_BITS → ∀ k, k ≤ 19 →
+        Holds (arith_fft.convolve_dispatch bits (2 ^ k)) (DispatchOk bits k)) := by
+  intro h
+  have := h 100 (by decide) 0 (by decide)
+  revert this
+  decide +kernel
 
 /-- the instantiations: `fsize = 64 N`. -/
 theorem convolve_fsize_ok : ∀ fn ∈ CONVOLVE_FSIZE_N, fn.2 * 64 = fn.1 := by decide +kernel
